@@ -479,7 +479,7 @@ theorem sound_coalescelist (os ws : List Value) (r : Value) (hk : ∀ a ∈ os, 
 
 /-- **`keys`** (`AllowUnknown`): an object's keys come from its type, known or not; a known map keeps its keys
 under weakening of its elements; an unknown map gives the unknown list of strings. -/
-theorem sound_keys (o w r : Value) (hk : o.whollyKnown = true) (hwf : Ty.wf w.ty = true)
+theorem sound_keys (o w r : Value) (hk : o.whollyKnown = true)
     (hmo : o.containsMarked = false) (hmw : w.containsMarked = false)
     (hty : w.ty = o.ty ∨ w.ty.isDyn = true) (hc : CoversX w o = true)
     (hrwf : Ty.wf r.ty = true) (hrefl : Covers r r = true)
@@ -488,7 +488,7 @@ theorem sound_keys (o w r : Value) (hk : o.whollyKnown = true) (hwf : Ty.wf w.ty
   impl_soundness_lifts_to_call _ _ _ [o] [w] r
     (fun hp => D12b.typeMonoAt_of_eq
       (D12b.keysType_eq (D12b.ty_kept_of_passes_nodyn (spec := Stdlib.keysSpec) rfl hp hty)))
-    (fun _ ht => D12b.keysType_wf hwf ht)
+    (fun _ ht => D12b.keysType_wf ht)
     (by simpa using C12L.whollyKnown_isKnown hk) (by simpa using hmo) (by simpa using hmw)
     (one_arg_cover hc) ⟨hty, trivial⟩ hrwf hrefl
     (fun hp _ => D12b.keys_implSound o w (D12b.ty_kept_of_passes_nodyn (spec := Stdlib.keysSpec) rfl hp hty)
@@ -1094,11 +1094,11 @@ example : ∃ r', (callUnrefined Stdlib.coalesceListSpec Stdlib.coalesceListType
 /-- `keys` of a map with an unknown element value, and of an unknown map -/
 example : ∃ r', (callUnrefined Stdlib.keysSpec Stdlib.keysType Stdlib.keysImpl [exMw]).1 = .ok r' ∧
     Covers r' ⟨.list .string, .seq [.s "k", .s "l"]⟩ = true :=
-  sound_keys exM exMw ⟨.list .string, .seq [.s "k", .s "l"]⟩ (by decide) (by decide) (by decide) (by decide) (Or.inl rfl)
+  sound_keys exM exMw ⟨.list .string, .seq [.s "k", .s "l"]⟩ (by decide) (by decide) (by decide) (Or.inl rfl)
     (by decide) (by decide) (by decide) (by rfl)
 example : ∃ r', (callUnrefined Stdlib.keysSpec Stdlib.keysType Stdlib.keysImpl [⟨.map .number, .unk (.coll .f 2 2)⟩]).1 = .ok r' ∧
     Covers r' ⟨.list .string, .seq [.s "k", .s "l"]⟩ = true :=
-  sound_keys exM ⟨.map .number, .unk (.coll .f 2 2)⟩ ⟨.list .string, .seq [.s "k", .s "l"]⟩ (by decide) (by decide) (by decide)
+  sound_keys exM ⟨.map .number, .unk (.coll .f 2 2)⟩ ⟨.list .string, .seq [.s "k", .s "l"]⟩ (by decide) (by decide)
     (by decide) (Or.inl rfl) (by decide) (by decide) (by decide) (by rfl)
 
 /-- `values` of the map with an unknown (bounded) element -/
